@@ -21,3 +21,7 @@ Example C10_nonvacuous :
   let s := drun true [Arrive 1; UserGet 7; Arrive 2; Arrive 3; CreateDone 0; Arrive 4; UserGet 8] in
   handled s = [(1, 0); (2, 0); (3, 0); (4, 0)] /\ got s = [(7, 0); (8, 0)] /\ setups s = 1.
 Proof. vm_compute. repeat split. Qed.
+
+Theorem C10_getters : C10_getters_statement.
+Proof. exact C10Facts.C10_getters. Qed.
+Print Assumptions C10_getters.
